@@ -4,6 +4,7 @@ import (
 	"fmt"
 	"runtime"
 	"sync"
+	"sync/atomic"
 	"time"
 
 	"github.com/fufuok/cache/zzverif/vshim"
@@ -259,8 +260,25 @@ func parallelFill(r rng, res *result, idx int64) {
 			}
 		}(g)
 	}
+	// observers: Size/Count is also called WHILE the writers run (an implementation that
+	// caches or folds the striped counter on reads must still be exact afterwards)
+	var pstop int32
+	var pwg sync.WaitGroup
+	for p := 0; p < 3; p++ {
+		pwg.Add(1)
+		go func() {
+			defer pwg.Done()
+			<-start
+			for atomic.LoadInt32(&pstop) == 0 {
+				t.size()
+				runtime.Gosched()
+			}
+		}()
+	}
 	close(start)
 	wg.Wait()
+	atomic.StoreInt32(&pstop, 1)
+	pwg.Wait()
 	vshim.SetMode(0)
 	runtime.GOMAXPROCS(old)
 	want := 0
@@ -347,8 +365,23 @@ func hotFill(r rng, res *result, idx int64) {
 				}
 			}(g)
 		}
+		var pstop int32
+		var pwg sync.WaitGroup
+		for p := 0; p < 2; p++ {
+			pwg.Add(1)
+			go func() {
+				defer pwg.Done()
+				<-start
+				for atomic.LoadInt32(&pstop) == 0 {
+					m.Size()
+					runtime.Gosched()
+				}
+			}()
+		}
 		close(start)
 		wg.Wait()
+		atomic.StoreInt32(&pstop, 1)
+		pwg.Wait()
 		vshim.SetMode(0)
 		size, ranged := m.Size(), 0
 		m.Range(func(int, any) bool { ranged++; return true })
@@ -431,8 +464,21 @@ func shrinkDance(r rng, res *result, idx int64) {
 				vshim.Progress()
 			}
 		}()
+		var pstop int32
+		var pwg sync.WaitGroup
+		pwg.Add(1)
+		go func() {
+			defer pwg.Done()
+			<-start
+			for atomic.LoadInt32(&pstop) == 0 {
+				t.size()
+				runtime.Gosched()
+			}
+		}()
 		close(start)
 		wg.Wait()
+		atomic.StoreInt32(&pstop, 1)
+		pwg.Wait()
 		vshim.SetMode(0)
 		runtime.GOMAXPROCS(old)
 		size, ranged := t.size(), t.ranged()
